@@ -187,6 +187,14 @@ func (w *Watcher) Run(ctx context.Context) error {
 		return fmt.Errorf("creating block poll connector failed: %w", err)
 	}
 
+	// Run is re-entered by the supervisor on the same Watcher value after an error: messages observed by the previous
+	// run are still pending, but the new poller starts disabled and would only be enabled by the next log.
+	w.pendingMu.Lock()
+	if len(w.pending) > 0 {
+		w.ethConn.EnablePoller()
+	}
+	w.pendingMu.Unlock()
+
 	// Subscribe to new message publications. We don't use a timeout here because the LogPollConnector
 	// will keep running. Other connectors will use a timeout internally if appropriate.
 	messageC := make(chan *abi.AbiLogMessagePublished, 2)
